@@ -31,3 +31,110 @@ End C02.
 Example C02_example : kind_wf (mkUnit (KFragData true 0 1 0 0) 13 0 0) = true /\
                       kind_wf (mkUnit (KFragData true 0 0 0 0) 13 0 0) = false.
 Proof. vm_compute. split; reflexivity. Qed.
+
+(* ===================================================================================================
+   STAGE 2 -- inside a data unit, over actual BITS.  Model: Model/Headers.v (bit reader, parse_info,
+   sequence header, picture header, transform parameters, fragment header; tie C: tools/harness/C02_headers.py
+   runs the real decoder functions and the model on the same bits) and Model/DataUnit.v (composition with
+   the slice readers of Model/Slices.v, property C08).
+
+   `verdict r`  :=  r = HOk _  \/  r = HReject <conformance error class>  \/  r = HEof (UnexpectedEndOfStream),
+   i.e. NOT HCrash <Python exception> and NOT HOutOfFuel (fuel = unread bits + 1 always suffices).
+   Quantified over ALL bit strings, reader positions, ALL tables satisfying the decidable consistency
+   predicate `tables_ok` (a value accepted by an enum check is a key of the table subscripted next; evaluated
+   on the live vc2_data_tables objects on every run), ALL level-constraint predicates `lvl` and ALL matcher
+   answers.  Contexts are the state entries that the preceding stream-level steps always provide
+   (PIC / FRAG / PINFO below; their maintenance across data units is the stream-level theorem above). *)
+From VC2 Require Import Model.Headers Proofs.HeadersProofs Model.DataUnit Proofs.DataUnitProofs.
+
+(* (11.1) sequence_header, from any state whatsoever, at a byte-aligned position *)
+Theorem C02_headers_total_sequence_header : forall T lvl fuel s,
+  Headers.tables_ok T = true ->
+  (length (Headers.r_bits (Headers.s_rd s)) < fuel)%nat ->
+  py_mod (Headers.r_pos (Headers.s_rd s)) 8 = 0 ->
+  HeadersProofs.verdict (Headers.sequence_header T lvl fuel s) /\
+  (forall s', Headers.sequence_header T lvl fuel s = Headers.HOk (tt, s') ->
+     HeadersProofs.ext s s' /\ HeadersProofs.after_seq_hdr s').
+Proof. exact HeadersProofs.sequence_header_total. Qed.
+
+(* (12.1) picture_parse up to the first slice: byte_align, picture_header, byte_align, transform_parameters
+   (with extended_transform_parameters, slice_parameters, quant_matrix), byte_align.
+   PIC s = major_version, picture_coding_mode, the four picture dimensions (left by a parsed sequence header:
+   after_seq_hdr), _num_pictures_in_sequence (parse_sequence) and parse_code (parse_info) are present. *)
+Theorem C02_headers_total_picture : forall T lvl fuel s,
+  HeadersProofs.PIC s -> (length (Headers.r_bits (Headers.s_rd s)) < fuel)%nat ->
+  HeadersProofs.verdict (Headers.picture_parse_header T lvl fuel s) /\
+  (forall s', Headers.picture_parse_header T lvl fuel s = Headers.HOk (tt, s') ->
+     HeadersProofs.ext s s' /\ HeadersProofs.slices_present s').
+Proof. exact HeadersProofs.picture_parse_header_total. Qed.
+
+(* (14.1) fragment_parse up to the first slice: fragment_header and, for a first fragment,
+   transform_parameters + the counters of initialize_fragment_state.
+   FRAG s = PIC s, _fragment_slices_remaining present, and when it is non-zero (a fragmented picture is in
+   progress) fragment_slices_received, _picture_initial_fragment_offset and a non-zero slices_x are there. *)
+Theorem C02_headers_total_fragment : forall T lvl fuel s,
+  HeadersProofs.FRAG s -> (length (Headers.r_bits (Headers.s_rd s)) < fuel)%nat ->
+  HeadersProofs.verdict (Headers.fragment_parse_header T lvl fuel s) /\
+  (forall s', Headers.fragment_parse_header T lvl fuel s = Headers.HOk (tt, s') -> HeadersProofs.ext s s').
+Proof. exact HeadersProofs.fragment_parse_header_total. Qed.
+
+(* (10.5.1) parse_info, for all answers of the two pattern matchers.
+   PINFO s = _generic_sequence_matcher present; level present when the level matcher is; _last_parse_info_offset
+   present when a non-zero next_parse_offset is; a stored profile is a member of the Profiles enum. *)
+Theorem C02_headers_total_parse_info : forall T generic_accepts level_accepts fuel s,
+  Headers.tables_ok T = true -> HeadersProofs.PINFO T s ->
+  (length (Headers.r_bits (Headers.s_rd s)) < fuel)%nat ->
+  HeadersProofs.verdict (Headers.parse_info T generic_accepts level_accepts s) /\
+  (forall s', Headers.parse_info T generic_accepts level_accepts s = Headers.HOk (tt, s') ->
+     HeadersProofs.ext s s' /\ HeadersProofs.present Headers.S_parse_code s').
+Proof. exact HeadersProofs.parse_info_total. Qed.
+
+(* verdict = neither a Python exception nor out of fuel *)
+Theorem C02_verdict_iff : forall (A : Type) (r : Headers.hres A),
+  HeadersProofs.verdict r <-> (forall c, r <> Headers.HCrash c) /\ r <> Headers.HOutOfFuel.
+Proof. exact @HeadersProofs.verdict_iff. Qed.
+
+(* the contexts chain: what a parsed sequence header leaves, plus the two entries set by parse_sequence and
+   parse_info, is the context of a picture; keys never disappear (ext) *)
+Theorem C02_picture_context : forall s,
+  HeadersProofs.after_seq_hdr s -> HeadersProofs.present Headers.S_num_pictures_in_sequence s ->
+  HeadersProofs.present Headers.S_parse_code s -> HeadersProofs.PIC s.
+Proof. exact HeadersProofs.PIC_intro. Qed.
+Theorem C02_picture_context_kept : forall s s', HeadersProofs.PIC s -> HeadersProofs.ext s s' -> HeadersProofs.PIC s'.
+Proof. exact HeadersProofs.PIC_ext. Qed.
+
+(* `tables_ok` cannot be dropped, and HCrash is a genuine outcome of the model: a base video format that is
+   in the enum but not in BASE_VIDEO_FORMAT_PARAMETERS gives KeyError *)
+Theorem C02_headers_refuted_for_inconsistent_tables :
+  Headers.tables_ok (HeadersProofs.toy_tables false) = false /\
+  exists bits, Headers.sequence_header (HeadersProofs.toy_tables false) (fun _ _ _ => true) (Headers.fuel_for bits)
+                 (Headers.init_S [] None None bits 0) = Headers.HCrash Headers.X_KeyError.
+Proof. exact HeadersProofs.tables_ok_needed. Qed.
+
+(* non-vacuity: a 16 bit sequence header (version 1, profile 0, level 0, base format 0, no custom fields,
+   frames) is parsed by the model *)
+Example C02_headers_example :
+  Headers.tables_ok (HeadersProofs.toy_tables true) = true /\
+  exists s', Headers.sequence_header (HeadersProofs.toy_tables true) (fun _ _ _ => true)
+               (Headers.fuel_for (Headers.bits_of_bytes [62; 1]))
+               (Headers.init_S [] None None (Headers.bits_of_bytes [62; 1]) 0) = Headers.HOk (tt, s') /\
+             Headers.s_st s' Headers.S_luma_width = Some 4 /\ Headers.s_st s' Headers.S_luma_height = Some 2 /\
+             Headers.s_st s' Headers.S_luma_depth = Some 8 /\ Headers.r_pos (Headers.s_rd s') = 16.
+Proof. exact HeadersProofs.toy_header_parses. Qed.
+
+(* A WHOLE picture data unit -- headers, transform parameters and every slice in raster order (the slice
+   readers are Model/Slices.v; fuel sufficiency is C08_fuel_sufficient) -- ends in a verdict.
+   PARTIAL.  Outside this statement:
+   * Model/Slices.v has no `Crash` outcome: state["quant_matrix"][level][orient] is a total function there and the
+     writes into the coefficient arrays are a list of assignments, so KeyError / IndexError in the slice readers
+     are excluded by C13 (slice geometry inside the subband) and by the shape of the matrix, not by this theorem;
+     the two level assertions inside the slice readers (qindex, total_slice_bytes) only add ValueNotAllowedInLevel;
+   * dc_prediction, the inverse wavelet transform and picture_decode (arithmetic on well-shaped arrays: C09, C11);
+   * the bit-level refinement of the abstract data units of Model/Stream.v (C02_stream_no_crash_partial above is
+     stated over abstract units; that each unit's bits are parsed as modelled here is what the correspondence run
+     of stage 2 checks), padding / auxiliary data bodies;
+   * the reporting methods of the 64 exception classes. *)
+Theorem C02_data_unit_total_partial : forall T lvl fuel s,
+  HeadersProofs.PIC s -> (length (Headers.r_bits (Headers.s_rd s)) < fuel)%nat ->
+  HeadersProofs.verdict (DataUnit.picture_data_unit T lvl fuel s).
+Proof. exact DataUnitProofs.picture_data_unit_total. Qed.
